@@ -78,7 +78,7 @@ public:
     }
 
     const_slice_t(const const_slice_t& rhs)
-      : base_slice_t(rhs.size(), rhs._i1, rhs._i2, rhs._m)
+      : base_slice_t(rhs._n, rhs._i1, rhs._i2, rhs._m)
       , _base{rhs._base} {
     }
 
